@@ -92,6 +92,12 @@ theorem fact_authzV1 :
     "nutsCrypto.ParseJWT" ∈ Facts.C17.introspectCalls ∧ "s.privateKeyStore.Exists" ∈ Facts.C17.introspectCalls ∧
     "!exists" ∈ Facts.C17.introspectErrConds := by decide
 
+/-- the process-global allow-list is extended in exactly one place (the ES256K build tag), and the DAG signature verifier is
+    installed by the network engine -/
+theorem fact_wiring :
+    Facts.C17.addSupportedAlgorithmCallers = ["crypto/jwx/jwx_es256k.go"] ∧
+    Facts.C17.dagSignatureVerifierInstalledIn = ["network/network.go"] := by decide
+
 /-! ### The uniform statement -/
 
 /-- the discipline of an accepted token: exactly one signature `s`, exactly one verification `v`, of that signature,
@@ -276,6 +282,32 @@ theorem accept_ldProof (L : LdEnv) (key : Key) (canon : Bool) (parts : Nat) (dec
       L.verifiesDetached key v.alg = true ∧ parts = 2 := by
   obtain ⟨alg, hv, hka, hver, hparts⟩ := ldProof_accept h
   exact ⟨_, hv, rfl, rfl, hka, allowed_lists_asymmetric.2.2.2 _ (hderive _ _ hka), hver, hparts⟩
+
+/-- VC / VP with a JSON-LD proof (signature_verifier.jsonldProof): the one verification is made with the key the resolver
+    returns for the proof's verificationMethod, and that verificationMethod is a DID URL of exactly the issuer's DID -/
+theorem accept_vcJsonLd (E : Env) (L : LdEnv) (issuer vm : String) (didOf : String → String) (va canon : Bool) (parts : Nat)
+    (dec : Bool) (vs : List Verified)
+    (hderive : ∀ k a, L.keyAlg k = some a → a ∈ Facts.C17.keyDerivedAlgs)
+    (h : vcJsonLdProof E L issuer vm didOf va canon parts dec = .accept vs) :
+    didOf vm = issuer ∧ ∃ k v, E.resolve vm = some k ∧ vs = [v] ∧ v.key = k ∧ L.keyAlg k = some v.alg ∧
+      v.alg ∉ symmetricOrNone ∧ L.verifiesDetached k v.alg = true := by
+  unfold vcJsonLdProof at h
+  split at h; · cases h
+  split at h; · cases h
+  next hiss =>
+  split at h; · cases h
+  split at h; · cases h
+  next k hk =>
+  obtain ⟨v, hv, hkey, _, hka, hasym, hver, _⟩ := accept_ldProof L k canon parts dec vs hderive h
+  simp only [Bool.or_eq_true, decide_eq_true_eq, not_or, Decidable.not_not] at hiss
+  exact ⟨hiss.2, k, v, hk, hv, hkey, hka, hasym, hver⟩
+
+/-- jsonldProof's error exits, verbatim -/
+theorem fact_vcJsonLd :
+    "verificationMethod == \"\"" ∈ Facts.C17.vcJsonLdErrConds ∧
+    "verificationMethodIssuer == \"\" || verificationMethodIssuer != issuer" ∈ Facts.C17.vcJsonLdErrConds ∧
+    "!ldProof.ValidAt(validAt, maxSkew)" ∈ Facts.C17.vcJsonLdErrConds ∧
+    "sv.keyResolver.ResolveKeyByID" ∈ Facts.C17.vcJsonLdCalls ∧ "ldProof.Verify" ∈ Facts.C17.vcJsonLdCalls := by decide
 
 /-! ### header_keys_ignored -/
 
